@@ -183,6 +183,7 @@ def check(chk):
     _player_addressing(chk, repo)
     _events_switched_on(chk, repo)
     _send_all(chk, repo)
+    _player_objects_not_shared(chk, repo)
     _score_queue_adds(chk, repo)
     _remembered_selection(chk, repo, md, super_chain)
     _restart_list(chk, repo)
@@ -218,6 +219,9 @@ def check(chk):
            detail=src(dl_[0]) if dl_ else "", construct=amd.ident, text="device loaded with the mode's player")
     from sa.helpers import unload_cleanup_unconditional
     unload_cleanup_unconditional(chk, "PAIR-12")
+    # a delayed control event of the turn that ends never reaches the devices of the next turn: stopping a mode clears its delays
+    from sa.helpers import mode_stop_clears_delays
+    mode_stop_clears_delays(chk, "PAIR-12")
 
     # ------------------------------------------------------------ FLOW-4
     n_f = 0
@@ -589,6 +593,37 @@ def _send_all(chk, repo):
            construct=f.ident, text="send all variable events")
 
 
+def _player_objects_not_shared(chk, repo):
+    """FRESH-11: an object placed in a player variable belongs to that player alone.  Every store `<...>player[<name>] = V` in the
+    framework has a V that is not a shallow copy (copy.copy(x) / x.copy()) of, nor an element or attribute of, an object that outlives
+    the player (a container on `self`): a shallow copy shares the mutable parts (a Randomizer's position and sent items), so one
+    player's draws advance every player's list and a new game continues where the last one stopped."""
+    n = 0
+    for rel, m in sorted(repo.modules.items()):
+        if not rel.startswith("mpf/") or "/tests/" in rel:
+            continue
+        for f in m.all_funcs():
+            for x in walk_local(f.node):
+                if not (isinstance(x, ast.Assign) and len(x.targets) == 1 and isinstance(x.targets[0], ast.Subscript)):
+                    continue
+                recv = src(x.targets[0].value)
+                if not (recv == "player" or recv.endswith(".player")):
+                    continue
+                n += 1
+                v = x.value
+                shared = None
+                for y in ast.walk(v):
+                    if isinstance(y, ast.Call):
+                        nm = y.func.id if isinstance(y.func, ast.Name) else (y.func.attr if isinstance(y.func, ast.Attribute) else None)
+                        if nm == "copy":
+                            shared = "shallow copy " + short(y, 50)
+                if shared is None and isinstance(v, ast.Subscript) and src(v.value).startswith("self._"):
+                    shared = "element of " + src(v.value)
+                chk.ob("FRESH-11", "what %s stores in a player variable is not shared with other players" % f.qualname, shared is None, f.where(x),
+                       detail=shared or "", construct=f.ident, text="player variable store " + short(x.targets[0], 50))
+    chk.floor("FRESH-11", 3)
+
+
 def _player_addressing(chk, repo):
     """IDX-1: which player a write or a read addresses.  Config player numbers are 1-based, player_list is 0-based; without a
     number the current player is meant; machine actions never touch a player; both player-placeholder access paths agree."""
@@ -659,6 +694,8 @@ def battery():
     from sa.battery import M
     LBF = "mpf/devices/logic_blocks.py"
     return [
+        M("per-player randomizer is a shallow copy of a shared one", "mpf/config_players/random_event_player.py", "                self.machine.game.player[key] = Randomizer(\n                    settings['events'], self.machine, template_type=\"event\")", "                import copy\n                self.machine.game.player[key] = copy.copy(self._machine_wide_dict.setdefault(key, Randomizer(\n                    settings['events'], self.machine, template_type=\"event\")))", "FRESH-11"),
+        M("mode delays survive the stop", "mpf/core/mode.py", "        self._remove_mode_switch_handlers()\n\n        self.delay.clear()\n", "        self._remove_mode_switch_handlers()\n", "PAIR-12"),
         M("bonus writes vars directly", "mpf/modes/bonus/code/bonus.py", "                self.player[entry['player_score_entry']] = 0", "                self.player.vars[entry['player_score_entry']] = 0", "OWN-13"),
         M("event carries stale value", PL, "self._send_variable_event(name, self.vars[name], prev_value, change, self.vars['number'], **kwargs)", "self._send_variable_event(name, prev_value, prev_value, change, self.vars['number'], **kwargs)", "DOM-21"),
         M("prev read after store", PL, "        self.vars[name] = value\n\n        try:\n            change = value - prev_value", "        self.vars[name] = value\n        prev_value = self.vars[name]\n\n        try:\n            change = value - prev_value", "DOM-21"),
